@@ -36,6 +36,7 @@ type verifFeed struct {
 	rng    *rand.Rand
 	self   int    // index of the genesis node this replica runs as
 	cursor uint64 // timeline cursor for generated snapshot timestamps
+	custodians []common.Address // custodian accounts installed by the harness after genesis
 }
 
 // verifEpochUnix places the network epoch well in the past so that every
@@ -212,7 +213,25 @@ func (f *verifFeed) sign(s *common.Snapshot, extra int) ([]crypto.Hash, error) {
 	if n > len(cids) {
 		n = len(cids)
 	}
-	perm := f.rng.Perm(len(cids))[:n]
+	// the proposing node always signs its own snapshot (it is the CoSi leader)
+	leader := -1
+	for i, id := range cids {
+		if id == s.NodeId {
+			leader = i
+		}
+	}
+	var perm []int
+	if leader >= 0 {
+		perm = append(perm, leader)
+	}
+	for _, i := range f.rng.Perm(len(cids)) {
+		if len(perm) >= n {
+			break
+		}
+		if i != leader {
+			perm = append(perm, i)
+		}
+	}
 	sort.Ints(perm)
 	return verifSignWith(f.net, s, cids, publics, perm)
 }
@@ -299,4 +318,178 @@ func (f *verifFeed) feedBatch(chainId crypto.Hash, txs []*common.VersionedTransa
 		return s, verifDelivery{Err: err}
 	}
 	return s, f.deliver(s, txs)
+}
+
+// ---------------------------------------------------------------------------
+// W-crash: a storage.Store proxy that counts every mutating call, records it,
+// and can stop the replica at a chosen call boundary.
+
+type verifCrash struct{ at int; method string; before bool }
+
+type verifCall struct {
+	Index  int
+	Method string
+	Note   string
+}
+
+type verifProxy struct {
+	storage.Store
+	calls   []verifCall
+	cutAt   int  // index of the call to cut at (-1: never)
+	before  bool // stop before performing the call (else right after it)
+	onCall  func(idx int, method string, before bool) // schedule-injection hook, runs at both sides of every call
+	inHook  bool
+	stopped bool
+}
+
+func newVerifProxy(s storage.Store) *verifProxy { return &verifProxy{Store: s, cutAt: -1} }
+
+func (p *verifProxy) enter(method, note string) int {
+	if p.inHook { // calls made by an injected schedule step are not cut points of the observed sequence
+		return -1
+	}
+	if p.stopped {
+		panic(verifCrash{at: -1, method: method})
+	}
+	idx := len(p.calls)
+	p.calls = append(p.calls, verifCall{Index: idx, Method: method, Note: note})
+	if p.onCall != nil && !p.inHook {
+		p.inHook = true
+		p.onCall(idx, method, true)
+		p.inHook = false
+	}
+	if idx == p.cutAt && p.before {
+		p.stopped = true
+		panic(verifCrash{at: idx, method: method, before: true})
+	}
+	return idx
+}
+
+func (p *verifProxy) leave(idx int, method string) {
+	if idx < 0 {
+		return
+	}
+	if p.onCall != nil && !p.inHook {
+		p.inHook = true
+		p.onCall(idx, method, false)
+		p.inHook = false
+	}
+	if idx == p.cutAt && !p.before {
+		p.stopped = true
+		panic(verifCrash{at: idx, method: method, before: false})
+	}
+}
+
+func (p *verifProxy) LoadGenesis(r []*common.Round, s []*common.SnapshotWithTopologicalOrder, t []*common.VersionedTransaction) error {
+	i := p.enter("LoadGenesis", "")
+	err := p.Store.LoadGenesis(r, s, t)
+	p.leave(i, "LoadGenesis")
+	return err
+}
+func (p *verifProxy) AddNodeOperation(tx *common.VersionedTransaction, timestamp, threshold uint64, finalized bool) error {
+	i := p.enter("AddNodeOperation", "")
+	err := p.Store.AddNodeOperation(tx, timestamp, threshold, finalized)
+	p.leave(i, "AddNodeOperation")
+	return err
+}
+func (p *verifProxy) WriteTransaction(tx *common.VersionedTransaction) error {
+	i := p.enter("WriteTransaction", tx.PayloadHash().String()[:8])
+	err := p.Store.WriteTransaction(tx)
+	p.leave(i, "WriteTransaction")
+	return err
+}
+func (p *verifProxy) StartNewRound(node crypto.Hash, number uint64, references *common.RoundLink, finalStart uint64) error {
+	i := p.enter("StartNewRound", fmt.Sprintf("%s:%d", node.String()[:8], number))
+	err := p.Store.StartNewRound(node, number, references, finalStart)
+	p.leave(i, "StartNewRound")
+	return err
+}
+func (p *verifProxy) UpdateEmptyHeadRound(node crypto.Hash, number uint64, references *common.RoundLink) error {
+	i := p.enter("UpdateEmptyHeadRound", fmt.Sprintf("%s:%d", node.String()[:8], number))
+	err := p.Store.UpdateEmptyHeadRound(node, number, references)
+	p.leave(i, "UpdateEmptyHeadRound")
+	return err
+}
+func (p *verifProxy) WriteConsensusSnapshot(snap *common.Snapshot, tx *common.VersionedTransaction, hack *common.Snapshot) error {
+	i := p.enter("WriteConsensusSnapshot", snap.Hash.String()[:8])
+	err := p.Store.WriteConsensusSnapshot(snap, tx, hack)
+	p.leave(i, "WriteConsensusSnapshot")
+	return err
+}
+func (p *verifProxy) LockUTXOs(inputs []*common.Input, tx crypto.Hash, fork bool) error {
+	i := p.enter("LockUTXOs", tx.String()[:8])
+	err := p.Store.LockUTXOs(inputs, tx, fork)
+	p.leave(i, "LockUTXOs")
+	return err
+}
+func (p *verifProxy) LockDepositInput(deposit *common.DepositData, tx crypto.Hash, fork bool) error {
+	i := p.enter("LockDepositInput", tx.String()[:8])
+	err := p.Store.LockDepositInput(deposit, tx, fork)
+	p.leave(i, "LockDepositInput")
+	return err
+}
+func (p *verifProxy) LockMintInput(mint *common.MintData, tx crypto.Hash, fork bool) error {
+	i := p.enter("LockMintInput", tx.String()[:8])
+	err := p.Store.LockMintInput(mint, tx, fork)
+	p.leave(i, "LockMintInput")
+	return err
+}
+func (p *verifProxy) LockGhostKeys(keys []*crypto.Key, tx crypto.Hash, fork bool) error {
+	i := p.enter("LockGhostKeys", tx.String()[:8])
+	err := p.Store.LockGhostKeys(keys, tx, fork)
+	p.leave(i, "LockGhostKeys")
+	return err
+}
+func (p *verifProxy) WriteSnapshot(s *common.SnapshotWithTopologicalOrder, signers []crypto.Hash) error {
+	i := p.enter("WriteSnapshot", fmt.Sprintf("%s@%d", s.Hash.String()[:8], s.TopologicalOrder))
+	err := p.Store.WriteSnapshot(s, signers)
+	p.leave(i, "WriteSnapshot")
+	return err
+}
+func (p *verifProxy) CacheStoreTransaction(tx *common.VersionedTransaction) error {
+	i := p.enter("CacheStoreTransaction", tx.PayloadHash().String()[:8])
+	err := p.Store.CacheStoreTransaction(tx)
+	p.leave(i, "CacheStoreTransaction")
+	return err
+}
+func (p *verifProxy) CacheQueueTransaction(tx *common.VersionedTransaction) error {
+	i := p.enter("CacheQueueTransaction", tx.PayloadHash().String()[:8])
+	err := p.Store.CacheQueueTransaction(tx)
+	p.leave(i, "CacheQueueTransaction")
+	return err
+}
+func (p *verifProxy) CacheRetrieveTransactions(limit int) ([]*common.VersionedTransaction, error) {
+	i := p.enter("CacheRetrieveTransactions", "")
+	txs, err := p.Store.CacheRetrieveTransactions(limit)
+	p.leave(i, "CacheRetrieveTransactions")
+	return txs, err
+}
+func (p *verifProxy) CacheRemoveTransactions(hs []crypto.Hash) error {
+	i := p.enter("CacheRemoveTransactions", "")
+	err := p.Store.CacheRemoveTransactions(hs)
+	p.leave(i, "CacheRemoveTransactions")
+	return err
+}
+func (p *verifProxy) WriteRoundWork(nodeId crypto.Hash, round uint64, snapshots []*common.SnapshotWork, credit bool) error {
+	i := p.enter("WriteRoundWork", fmt.Sprintf("%s:%d", nodeId.String()[:8], round))
+	err := p.Store.WriteRoundWork(nodeId, round, snapshots, credit)
+	p.leave(i, "WriteRoundWork")
+	return err
+}
+func (p *verifProxy) WriteRoundSpaceAndState(space *common.RoundSpace) error {
+	i := p.enter("WriteRoundSpaceAndState", "")
+	err := p.Store.WriteRoundSpaceAndState(space)
+	p.leave(i, "WriteRoundSpaceAndState")
+	return err
+}
+
+// verifFeedOn boots a replica on an existing directory of an existing network.
+func verifFeedOn(tb testing.TB, net *verifgen.Net, rng *rand.Rand, dir string, wrap func(*storage.BadgerStore) storage.Store) (*verifFeed, error) {
+	internal.ToggleMockRunAggregators(true)
+	f := &verifFeed{tb: tb, net: net, dir: dir, rng: rng, wrap: wrap}
+	f.cursor = net.Epoch + uint64(time.Hour)
+	if err := f.boot(); err != nil {
+		return nil, err
+	}
+	return f, nil
 }
